@@ -114,6 +114,8 @@ class State:
         self.record: T.Dict[str, str] = {}
         self.gone: T.Set[str] = set()
         self.builtin_default: T.Dict[str, str] = {}
+        # did the (sub)project have an option file when the build files were last interpreted (setup/reconfigure/wipe)?
+        self.optfile_seen: T.Dict[str, bool] = {'': True, 'sub': True}
 
 
 def key(sub: str, name: str) -> str:
@@ -129,6 +131,7 @@ class Model:
         # default_options: of the two project() calls as currently written in the build files
         self.dopts: T.Dict[str, T.Dict[str, str]] = dopts if dopts is not None else {'': {}, 'sub': {}}
         self.st = State()
+        self.absent: T.Set[str] = set()     # (sub)projects that declare nothing AND have no option file on disk (maintained by the driver)
         self.tree_exists = False       # build directory has been created (maybe emptied by a failed wipe)
 
     def vanished(self) -> T.List[str]:
@@ -164,7 +167,11 @@ class Model:
             if k.startswith('late:'):
                 st.user[k] = v
 
-    def _apply_files(self, st: State, initial: bool = False, cmdline: T.Mapping[str, str] = {}) -> None:
+    def _seen(self) -> T.Dict[str, bool]:
+        return {s: not (s in self.absent and not self.files[s]) for s in ('', 'sub')}
+
+    def _apply_files(self, st: State, initial: bool = False, cmdline: T.Mapping[str, str] = {},
+                     subs: T.Sequence[str] = ('', 'sub')) -> None:
         """update_project_options semantics for every (sub)project; initial: first configuration (default_options apply;
         cmdline = the options given on / recorded from the command line, which beat a subproject's own default_options:
         Builtin-options.md, "the value is overridden in this order")."""
@@ -173,7 +180,7 @@ class Model:
             for n, v in self.dopts['sub'].items():
                 if n in BUILTINS and n not in cmdline:
                     st.user['sub:' + n] = v
-        for sub in ('', 'sub'):
+        for sub in subs:
             new = self.files[sub]
             old = st.applied[sub]
             for name, spec in new.items():
@@ -243,6 +250,7 @@ class Model:
         st.user.update(assign)
         st.record = dict(assign)
         self._maybe_init_late(st, st.record)
+        st.optfile_seen = self._seen()
         st.configured = True
         self.st = st
         return True
@@ -254,7 +262,10 @@ class Model:
         A configure that changes nothing therefore does not pick up option-file edits either."""
         assert self.st.configured
         st = copy.deepcopy(self.st)
-        self._apply_files(st)
+        # `meson configure` does not interpret the build files: it re-reads the option files it has a record of (and the
+        # top-level one); a subproject that had NO option file when it was last configured gets its first one at the next
+        # reconfigure (mconf.py: "cannot handle options for a new subproject that has not yet been configured")
+        self._apply_files(st, subs=[s for s in ('', 'sub') if s == '' or st.optfile_seen.get(s, True)])
         if not self._check_assign(assign, st.applied):
             return False
         probe = Model.__new__(Model)
@@ -296,6 +307,7 @@ class Model:
             st.user[k] = v
             st.record[k] = v
         self._maybe_init_late(st, st.record)
+        st.optfile_seen = self._seen()
         self.st = st
         return True
 
@@ -322,6 +334,7 @@ class Model:
             return False
         st.user.update(record)
         self._maybe_init_late(st, record)
+        st.optfile_seen = self._seen()
         st.configured = True
         self.st = st
         return True
